@@ -356,6 +356,16 @@ def required_labels(tier):
     return ['boundary', 'request', 'eci', 'expect-overflow', 'mode-hanzi', 'mode-kanji', 'segments-2', 'overflow']
 
 
+def _fuzz(tier):
+    """Coverage-guided phase (atheris), thorough tier (or VERIF_FUZZ_RUNS=<n> in any tier)."""
+    import os
+    runs = int(os.environ.get('VERIF_FUZZ_RUNS', '0' if tier == 'quick' else '320000'))
+    if not runs:
+        return []
+    from .. import fuzz
+    return [fuzz.fuzz_phase(__name__, runs)]
+
+
 def phases(tier, seed):
     n = 3200 if tier == 'quick' else 300000
     return [
@@ -365,4 +375,4 @@ def phases(tier, seed):
              note='exact / previous / larger requested version at every (mode, level, version) capacity'),
         Enum('eci', eci_cases, exhaustive=True, note='eci=True byte content at every QR capacity boundary, with and without header'),
         Search('multi', st.one_of(near_boundary_multi(), near_boundary_multi(), gens.many_segments_case(), gens.crossing_segments_case(), gens.make_cases(big=0.05)), n),
-    ]
+    ] + _fuzz(tier)
